@@ -66,22 +66,6 @@ def _value_error_through_parser(f):
     return "ValueError" in (f.get("mro") or [f.get("cls")]) and "parse" in (f.get("stack") or [])
 
 
-def C13_fill_matrix_stopiteration(case, params):
-    """a lattice FILL whose ranges ask for more universes than are listed: next() in Fill._parse_matrix raises
-    StopIteration (empty message), which is not among the classes parse_input converts"""
-    f = _f(case)
-    if f.get("kind") not in ("leak", "empty-message", "check-raises") or f.get("cls") != "StopIteration" \
-            or f.get("func") != "_parse_matrix":
-        return False
-    card = _matching(case, f)
-    if card is None:
-        return False
-    body = _data_part(_card_text(case, card))
-    if not re.search(r"(?i)fill", body) or ":" not in body:
-        return False
-    return _gone_without(card, f, "without_check" if f.get("kind") == "check-raises" else "without")
-
-
 def _read_cards(text):
     """the read inputs of the file: [(text of the card's first line, has a file parameter)]"""
     out = []
@@ -89,17 +73,6 @@ def _read_cards(text):
         rest = (m.group(1) or "").split("$", 1)[0]
         out.append((m.group(0), re.search(r"(?i)(^|\s)file\s*(=|\s)\s*\S+", rest) is not None))
     return out
-
-
-def C13_read_card_without_file(case, params):
-    """a read input that has parameters but none called FILE: ReadInput.file_name subscripts the missing entry"""
-    f = _f(case)
-    if f.get("kind") not in ("leak", "check-raises") or f.get("cls") != "KeyError":
-        return False
-    st = f.get("stack") or []
-    if "flush_input" not in st or "file_name" not in st:
-        return False
-    return any(not has for _, has in _read_cards(case["text"]))
 
 
 def C13_check_malformed_read_card(case, params):
